@@ -167,7 +167,9 @@ def extract_vars(statement):
 
     variables = [v for v in variables if v[2] != ""]
 
-    return sorted(list(set(variables)), key=lambda var: var[2])
+    # Sort on the whole entry (variable name first) so that the order of entries for the same
+    # variable does not depend on the iteration order of the set.
+    return sorted(list(set(variables)), key=lambda var: (var[2], var[1], var[0]))
 
 
 def func_has_ctx_arg(func):
